@@ -12,7 +12,7 @@ source's timeline to within the coarser of the two formats' time resolutions".
                     whole milliseconds); `beat f g` — by at most `f` beats at the tempo in force (StepMania 1/96,
                     BMS 1/192) plus `g` = 1/192 beat for every tempo change before it (the writers snap tempo changes
                     to the same grid), and not at all when the source chart lies on the snap grid (`gridExact`).
-* `CloseTo`         declarative: some pairing (a permutation of the target's rows) puts every source row next to a
+* `CloseTo`         declarative: some pairing (a rearrangement of both row lists) puts every source row next to a
                     target row with the same column (+ shift) and times within the resolution; tempo points are
                     compared as a *timeline* (`normBpms`: time order, a point that repeats the tempo in force is
                     dropped — readers that re-seat tempo points insert such points).
@@ -62,7 +62,11 @@ def dropKsRec (r : Qua.Rec) : Qua.Rec :=
 
 def dropKs (d : Qua.Doc) : Qua.Doc := { d with hitObjects := d.hitObjects.map (·.map dropKsRec) }
 
-def ofQuaDoc (d : Qua.Doc) : Except Qua.Err AChart := (Qua.Spec.denote (dropKs d)).map ofQua
+/-- the abstract chart of a document: of its denotation where it has one, else of the denotation without key sounds -/
+def ofQuaDoc (d : Qua.Doc) : Except Qua.Err AChart :=
+  match Qua.Spec.denote d with
+  | .ok c => .ok (ofQua c)
+  | .error _ => (Qua.Spec.denote (dropKs d)).map ofQua
 
 def ofSMChart (offsetSec : Rat) (bpms : List (Rat × Rat)) (c : SM.DChart) : AChart :=
   let ns := SM.timedNotes offsetSec bpms c
@@ -256,9 +260,10 @@ inductive Zipped {α β} (R : α → β → Prop) : List α → List β → Prop
   | nil : Zipped R [] []
   | cons {a b as bs} : R a b → Zipped R as bs → Zipped R (a :: as) (b :: bs)
 
-/-- `as` and some rearrangement of `bs` are related position by position -/
+/-- after rearranging both lists, `as` and `bs` are related position by position (a perfect pairing of the two
+multisets) -/
 def Paired {α β} (R : α → β → Prop) (as : List α) (bs : List β) : Prop :=
-  ∃ bs' : List β, List.Perm bs' bs ∧ Zipped R as bs'
+  ∃ (as' : List α) (bs' : List β), List.Perm as' as ∧ List.Perm bs' bs ∧ Zipped R as' bs'
 
 /-- the declarative statement: hits and holds of the source can be paired off with those of the target (same
 column up to the shift, times within the resolution), and the two tempo timelines pair off likewise -/
